@@ -47,7 +47,13 @@ MCInit ==
                                        /\ (MaxRows <= 2 => \A j \in 1..n : as[j] \in {D(-200, 2), D(1050, 2)}))
          /\ (cfg.conv = "none" => \A k \in 1..n : rts[k] = NoRate)
          /\ (cfg.ruleconv = "commodity" => \A k \in 1..n : rts[k] # NoRate)      \* a rule's conversion needs a rate on every row it matches
-         /\ rows = [k \in 1..n |-> Row(cfg.conv, k, IF k % 2 = 1 THEN "Grocery Shop" ELSE "給料", as[k], rts[k], IF k = 2 THEN "a note" ELSE "", chs[k], cms[k])]
+         \* dates: one day per row, or every row on the same day (the order of the statement is then the only
+         \* thing that says which row is older: `new_to_old` still means the last line is the oldest)
+         \* ... or a row booked late: its date is older than that of the row before it in the statement (the statement's own
+         \* order and its running balance are what count: sorting the rows by date would break the balance column)
+         /\ \E dm \in {"distinct", "same", "late"} :
+            /\ (dm # "distinct" => n >= 2 /\ cfg.conv \in {"none", "extract_pos"} /\ cfg.charge = "none" /\ ~cfg.cmdtcol /\ cfg.ruleconv = "none")
+            /\ rows = [k \in 1..n |-> Row(cfg.conv, IF dm = "same" THEN 1 ELSE IF dm = "late" THEN (IF k = 1 THEN 2 ELSE IF k = 2 THEN 1 ELSE k) ELSE k, IF k % 2 = 1 THEN "Grocery Shop" ELSE "給料", as[k], rts[k], IF k = 2 THEN "a note" ELSE "", chs[k], cms[k])]
 MCNext == UNCHANGED <<cfg, rows, opening>>
 MCSpec == MCInit /\ [][MCNext]_<<cfg, rows, opening>>
 
